@@ -383,15 +383,15 @@ Proof.
       * destruct (c_capnamelist c1) as [|s0 r0]; cbn [bind] in E; [discriminate|].
         destruct (merge_names nl (s0 :: r0) (aget0 s0 m1) m1) as [[l m']| | |] eqn:Emg; cbn [bind] in E; try discriminate.
         inversion E; subst tb. apply FIN. intros HT s k Hk.
-        destruct (merge_vals _ _ _ _ _ _ Emg s k Hk) as [H1|H1]; [eauto | apply (JS HT); rewrite Enl; exact H1].
+        destruct (merge_vals _ _ _ _ _ _ Emg s k Hk) as [H1|H1]; [eauto | apply (JS HT); exact H1].
       * destruct (c_capnamelist c1) as [|s0 r0]; cbn [bind] in E; [discriminate|].
         destruct (merge_names (zrange (c_capcount c1)) (s0 :: r0) (aget0 s0 m1) m1) as [[l m']| | |] eqn:Emg; cbn [bind] in E; try discriminate.
         inversion E; subst tb. apply FIN. intros HT s k Hk.
-        destruct (merge_vals _ _ _ _ _ _ Emg s k Hk) as [H1|H1]; [eauto | apply (JS HT); rewrite Enl; exact H1].
+        destruct (merge_vals _ _ _ _ _ _ Emg s k Hk) as [H1|H1]; [eauto | apply (JS HT); exact H1].
     + destruct (capnumlist_of c1) as [nl|] eqn:Enl.
       * cbn [bind] in E. destruct (merge_names nl [] (-1) []) as [[l m']| | |] eqn:Emg; cbn [bind] in E; try discriminate.
         inversion E; subst tb. apply FIN. intros HT s k Hk.
-        destruct (merge_vals _ _ _ _ _ _ Emg s k Hk) as [H1|H1]; [discriminate | apply (JS HT); rewrite Enl; exact H1].
+        destruct (merge_vals _ _ _ _ _ _ Emg s k Hk) as [H1|H1]; [discriminate | apply (JS HT); exact H1].
       * inversion E; subst tb. apply FIN. auto.
 Qed.
 
